@@ -99,6 +99,11 @@ deriving DecidableEq, Repr
 def passwordAttempt (p : Limit) (b : Bucket) (t : Int) : Bucket × PwResp :=
   ((allowStep p b t).1, if (allowStep p b t).2 then .backend else .tooMany)
 
+/-- the responses to a list of attempts arriving at the given times -/
+def pwRun (p : Limit) : Bucket → List Int → List PwResp
+  | _, [] => []
+  | b, t :: ts => (passwordAttempt p b t).2 :: pwRun p (passwordAttempt p b t).1 ts
+
 /-! ### how loadVerifyConfigFile clamps the configured values -/
 
 def clamp (c : Option (Nat × Nat)) (x : Nat) : Option Nat :=
@@ -239,10 +244,18 @@ deriving DecidableEq, Repr
 
 def monN (m : Mon) (now : Int) : Nat := if m.n = 0 ∨ m.lastFail + resetNs < now then 1 else m.n + 1
 
+def tooSoon (m : Mon) (now : Int) : Bool :=
+  match m.lastEval with
+  | some l => decide (now < l + spacingNs)
+  | none => false
+
+def inLockout (m : Mon) (now : Int) : Bool :=
+  match m.lockedUntil with
+  | some u => decide (now < u)
+  | none => false
+
 def monCheck (m : Mon) (now : Int) : Verdict :=
-  if (match m.lastEval with | some l => decide (now < l + spacingNs) | none => false) then .tooSoon
-  else if (match m.lockedUntil with | some u => decide (now < u) | none => false) then .duringLockout
-  else .ok
+  if tooSoon m now then .tooSoon else if inLockout m now then .duringLockout else .ok
 
 /-- after `every·k` consecutive evaluated failures the user is locked out until k·(lock step) after
 the last of them; a success clears the count; 24 h without a failure restarts it -/
